@@ -408,7 +408,8 @@ class Base(_BaseClass):
                     seq.append(rule)
                 return expected
             else:
-                new['wellformed'] = False
+                if new is not None:
+                    new['wellformed'] = False
                 self._log.error('Expected EOF.', token=token)
                 return expected
 
@@ -527,7 +528,8 @@ class Base2(Base, _NewBase):
                     )
                 return expected
             else:
-                new['wellformed'] = False
+                if new is not None:
+                    new['wellformed'] = False
                 self._log.error('Expected EOF.', token=token)
                 return expected
 
